@@ -432,7 +432,8 @@ def prefix_sensitive(results, xml):
     if '"qname"' in json.dumps(results):
         return True
     try:
-        root = etree.fromstring(xml.encode())
+        # comments and PIs removed at parse time: character data they split ("ns0<!---->:n1") is one text again
+        root = etree.fromstring(xml.encode(), etree.XMLParser(remove_comments=True, remove_pis=True))
     except etree.XMLSyntaxError:
         return True
     for el in root.iter():
